@@ -6,6 +6,7 @@ import (
 	"fmt"
 	"net/http"
 	"strings"
+	"sync"
 
 	mcp "trpc.group/trpc-go/trpc-mcp-go"
 )
@@ -23,6 +24,8 @@ type rawPeer struct {
 	evOff    int
 	lineOff  int
 	name     string
+	mu       sync.Mutex
+	posted   [][]byte
 }
 
 type rawResult struct {
@@ -147,6 +150,56 @@ func (p *rawPeer) exchange(raw []byte, hdr map[string]string) rawResult {
 		return out
 	}
 	return rawResult{Err: fmt.Errorf("unknown peer kind")}
+}
+
+// post sends one message without waiting for quiescence (several may be in flight at once); what
+// comes back is collected by allFrames.
+func (p *rawPeer) post(raw []byte) {
+	c := p.c
+	switch p.kind {
+	case "streamable":
+		r := rawDo(c, context.Background(), "POST", "http://"+p.w.Host+"/mcp", withSession(jsonHdr, p.sid), raw)
+		if r.Err == nil {
+			p.mu.Lock()
+			ct := r.Header.Get("Content-Type")
+			if strings.Contains(ct, "text/event-stream") {
+				var sp SSEParser
+				for _, ev := range sp.Feed(r.Body) {
+					p.posted = append(p.posted, []byte(ev.Data))
+				}
+			} else if len(strings.TrimSpace(string(r.Body))) > 0 {
+				p.posted = append(p.posted, r.Body)
+			}
+			p.mu.Unlock()
+		}
+	case "legacy-sse":
+		rawDo(c, context.Background(), "POST", "http://"+p.w.Host+p.endpoint, map[string]string{"Content-Type": "application/json"}, raw)
+	case "stdio":
+		p.link.ToSrv.Writer().Write(append(append([]byte(nil), raw...), '\n'))
+	}
+}
+
+// allFrames returns every frame received since the last exchange/allFrames call.
+func (p *rawPeer) allFrames() [][]byte {
+	var out [][]byte
+	switch p.kind {
+	case "streamable":
+		p.mu.Lock()
+		out = p.posted
+		p.posted = nil
+		p.mu.Unlock()
+	case "legacy-sse":
+		evs := p.stream.WireEvents()
+		for _, ev := range evs[min(p.evOff, len(evs)):] {
+			out = append(out, []byte(ev.Data))
+		}
+		p.evOff = len(evs)
+	case "stdio":
+		lines, _ := strictLines(p.link.FromSrv.Bytes())
+		out = append(out, lines[min(p.lineOff, len(lines)):]...)
+		p.lineOff = len(lines)
+	}
+	return out
 }
 
 func (p *rawPeer) close() {
